@@ -9,7 +9,7 @@ from ..cfg import CFG, explicit_raise_only, _walk_no_nested
 from ..fold import Folder
 from ..front import ClassInfo
 from ..regexec import RegExec
-from ..seq import response_class_of, nonlocal_stores
+from ..seq import response_class_of, shared_state_writes
 from ..tri import TriInterp, ALL_BYTES, brief_bytes
 
 CMD = "dali.command."
@@ -722,42 +722,9 @@ def _check_pure(run, repo, world, rcs):
                 continue
             seen.add(k)
             mod = repo.mod(k.mod)
-            inst = set()
-            for k2 in world.class_order:
-                if k in k2.mro or k2 in k.mro:
-                    for (mn, (kind, f)) in k2.methods.items():
-                        for x in _walk_no_nested(f):
-                            if isinstance(x, ast.Attribute) and isinstance(
-                                    x.ctx, ast.Store) and isinstance(
-                                    x.value, ast.Name) and \
-                                    x.value.id == "self":
-                                inst.add(x.attr)
             for (mn, (kind, f)) in sorted(k.methods.items()):
                 n += 1
-                bad = []
-                for (node, text) in nonlocal_stores(f):
-                    if isinstance(node, (ast.Global, ast.Nonlocal)):
-                        bad.append(text)
-                        continue
-                    t = node.func.value if isinstance(node, ast.Call) \
-                        else node
-                    chain = []
-                    e = t
-                    while isinstance(e, (ast.Attribute, ast.Subscript)):
-                        chain.append(e)
-                        e = e.value
-                    root = e.id if isinstance(e, ast.Name) else None
-                    if root == "self":
-                        first = chain[-1] if chain else None
-                        if isinstance(first, ast.Attribute) and \
-                                first.attr not in ("__class__",):
-                            if first is t and not isinstance(node, ast.Call):
-                                # self.x = ...: the object's own attribute
-                                continue
-                            if first.attr in inst:
-                                # a container the object made for itself
-                                continue
-                    bad.append(text)
+                bad = shared_state_writes(world, k, f)
                 run.ob("R-RESP-PURE", "%s.%s" % (k.qname, mn), not bad,
                        "%s.%s writes to state shared between responses "
                        "(%s): what one answer is decoded to then depends "
